@@ -109,6 +109,20 @@ pub fn generate_lift(seed: u64, n: usize, _tier: &str, emit: &mut dyn FnMut(Stri
             emit(format!("(and 0 | (divide 0 | {sload} {}) {})", k(s), k(m)));
         }
     }
+    // fields moved by a multiplication right up to the end of the word: ends at 255, 256, 257, 258
+    for (mask, len) in [("0x1", 1usize), ("0xff", 8), ("0xffffffffffffffffffffffffffffffff", 128),
+                        ("0xffffffffffffffffffffffffffffffffffffffff", 160)] {
+        for end in [255usize, 256, 257, 258] {
+            let sh = end - len;
+            if sh >= 256 {
+                continue;
+            }
+            let pow = format!("0x{:x}", ethnum::U256::ONE << (sh as u32));
+            emit(format!("(storageWrite 0 | {} (multiply 0 | (and 0 | (caller 1 |) {}) {}))", k("0x2"), k(mask), k(&pow)));
+            emit(format!("(storageWrite 0 | {} (or 0 | (and 0 | (callValue 1 |) {}) (multiply 0 | {} (and 0 | (caller 1 |) {}))))",
+                k("0x3"), k("0xff"), k(&pow), k(mask)));
+        }
+    }
     // hash look-alikes in keys and in values
     let mapkey = |slot: &str| format!("(sha3 0 | (concat 0 | (caller 1 |) {}))", k(slot));
     for slot in ["0x0", "0x5", "0x270f", "0x2710", "0xffffffffffffffffffffffffffffffff"] {
